@@ -172,6 +172,22 @@ class SpecEval:
             if isinstance(recv, GlobalRef):
                 raise SpecError(f"call on global {recv} in spec")
             args = [self.ev(a) for a in node.args]
+            rv = O.strip_opt(recv) if isinstance(recv, Val) else recv
+            if isinstance(rv, Val) and rv.ty.kind == "ref":
+                # a pure method under contract (no precondition, no exceptional outcome): its uninterpreted result plus its ensures
+                c = S.lookup_method(rv.ty.name, f.attr)
+                if c is None or not c.pure or c.modifies or c.requires or c.raises or c.returns.kind == "none" or node.keywords:
+                    raise SpecError(f"call of {rv.ty.name}.{f.attr} in a pure expression: not a pure total contract")
+                names = [p[0] for p in c.params]
+                env = {names[0]: O.coerce(rv, c.params[0][1])}
+                for n_, a in zip(names[1:], args):
+                    env[n_] = a
+                self.ex.used_assumed[c.key] = self.ex.used_assumed.get(c.key, 0) + 1
+                res = self.ex.pure_app(c, env, self.st)
+                env2 = dict(env, result=res, retval=res)
+                for text in c.ensures:
+                    self.facts.append(SpecEval(self.ex, self.st, self.st, env2, self.facts, c.defs, env2).boolean(S.parse_clause(text)))
+                return res
             return pure_method(recv, f.attr, args, self.facts)
         raise SpecError("unsupported call in spec")
 
@@ -276,17 +292,7 @@ class SpecEval:
         # body) may mention the bound variable.  They are instances of schemas valid for every value, so they are
         # generalised over the bound variable; a fact that *defines* a fresh symbol in terms of the bound variable
         # cannot be generalised (one symbol, many definitions) and is refused.
-        bnames = {b.decl().name() for b in bound}
-        for f in local:
-            syms = V.free_symbols(f)
-            if not (syms & bnames):
-                outer.append(f)
-                continue
-            fresh_defs = [n for n in syms - bnames if V.serial_of(n) > mark]
-            if fresh_defs:
-                raise SpecError(f"under the quantifier over `{var}` a sub-term needs a fresh symbol ({fresh_defs[0]}) defined in terms of "
-                                f"the bound variable; restate the clause without it")
-            outer.append(z3.ForAll(bound, f))
+        outer.extend(generalize_facts(local, bound, mark, f"the quantifier over `{var}`"))
         if universal:
             return V.mk_bool(z3.ForAll(bound, z3.Implies(guard, body)))
         return V.mk_bool(z3.Exists(bound, z3.And(guard, body)))
@@ -423,6 +429,13 @@ class SpecEval:
             raise SpecError("allocated() of a non-object")
         return V.mk_bool(z3.Select(self.st.alloc_map(x.ty.name), x.t))
 
+    def fn_fresh(self, node):
+        """fresh(x): the object x (evaluated in the current state) exists now and did not exist at entry."""
+        x = O.strip_opt(self.ev(node.args[0]))
+        if x.ty.kind != "ref":
+            raise SpecError("fresh() of a non-object")
+        return V.mk_bool(z3.And(z3.Select(self.st.alloc_map(x.ty.name), x.t), z3.Not(z3.Select(self.old.alloc_map(x.ty.name), x.t))))
+
     def fn_prefix(self, node):
         """prefix(L, k): the first k elements of L."""
         lst = O.strip_opt(self.ev(node.args[0]))
@@ -508,6 +521,25 @@ class SpecEval:
     def fn_sel(self, node):
         """sel(set_or_dict, key) -> membership bool (alias of `in`)."""
         return V.mk_bool(O.contains(self.ev(node.args[0]), self.ev(node.args[1])))
+
+
+def generalize_facts(local, bound, mark, where):
+    """Facts produced while evaluating a term under a binder (cardinality / fold / well-formedness schemas, ensures of pure
+    contracts) may mention the bound variables.  They are instances of statements valid for every value, so they are
+    generalised over the bound variables; a fact that *defines* a fresh symbol in terms of a bound variable cannot be
+    generalised (one symbol, many definitions) and is refused."""
+    out = []
+    bnames = {b.decl().name() for b in bound}
+    for f in local:
+        syms = V.free_symbols(f)
+        if not (syms & bnames):
+            out.append(f)
+            continue
+        fresh_defs = [n for n in syms - bnames if V.serial_of(n) > mark]
+        if fresh_defs:
+            raise SpecError(f"under {where} a sub-term needs a fresh symbol ({fresh_defs[0]}) defined in terms of the bound variable; restate without it")
+        out.append(z3.ForAll(list(bound), f))
+    return out
 
 
 _ufs = {}
